@@ -26,6 +26,7 @@
 *******************************************************************************/
 
 #include "intel-ipsec-mb.h"
+#include "include/clear_regs_mem.h"
 
 #ifndef JOB_API_GCM_H
 #define JOB_API_GCM_H
@@ -253,13 +254,23 @@ process_gmac(IMB_MGR *state, IMB_JOB *job, const IMB_KEY_SIZE_BYTES key_size)
 __forceinline IMB_JOB *
 process_ghash(IMB_MGR *state, IMB_JOB *job)
 {
-        /* copy initial tag value to the destination */
-        memcpy(job->auth_tag_output, job->u.GHASH._init_tag, job->auth_tag_output_len_in_bytes);
+        /*
+         * GHASH works on a full 16-byte block: run it on a local block so that no more than
+         * auth_tag_output_len_in_bytes bytes of the caller's tag buffers are read or written
+         */
+        uint8_t tag[16] = { 0 };
+
+        /* copy initial tag value */
+        memcpy(tag, job->u.GHASH._init_tag, job->auth_tag_output_len_in_bytes);
 
         /* compute new tag value */
         IMB_GHASH(state, job->u.GHASH._key, job->src + job->hash_start_src_offset_in_bytes,
-                  job->msg_len_to_hash_in_bytes, job->auth_tag_output,
-                  job->auth_tag_output_len_in_bytes);
+                  job->msg_len_to_hash_in_bytes, tag, sizeof(tag));
+
+        memcpy(job->auth_tag_output, tag, job->auth_tag_output_len_in_bytes);
+#ifdef SAFE_DATA
+        clear_mem(tag, sizeof(tag));
+#endif
 
         job->status |= IMB_STATUS_COMPLETED_AUTH;
         return job;
